@@ -129,8 +129,12 @@ func (w *Writer) recoverTail() error {
 		offset     int64
 		crcStart   int64
 		offsetsLen int
+		indexStart uint64
 	}
 	var commits []commitInfo
+
+	// Start of the index array of the last index frame seen so far (0 = none).
+	var indexStart uint64
 
 	offsets := make([]uint32, 0, 32*1024)
 
@@ -144,7 +148,7 @@ func (w *Writer) recoverTail() error {
 			// So this segment was sealed! (or attempted) keep track of this
 			// indexStart in case it turns out the Seal actually committed completely.
 			// We store the start of the actual array not the frame header.
-			w.writer.indexStart = uint64(offset) + frameHeaderLen
+			indexStart = uint64(offset) + frameHeaderLen
 
 		case FrameCommit:
 			// The payload is not the length field in this case!
@@ -153,6 +157,7 @@ func (w *Writer) recoverTail() error {
 				offset:     offset,
 				crcStart:   0,            // First commit includes the file header
 				offsetsLen: len(offsets), // Track how many entries were found up to this commit point.
+				indexStart: indexStart,   // ...and whether an index frame was.
 			}
 			if len(commits) > 0 {
 				ci.crcStart = commits[len(commits)-1].offset + frameHeaderLen
@@ -196,11 +201,11 @@ func (w *Writer) recoverTail() error {
 			// yet.
 			w.commitIdx = w.info.BaseIndex + uint64(len(offsets)) - 1
 		}
-		// An index frame that is not covered by the commit we recovered to was
-		// part of a torn (uncommitted) write so this segment is not sealed.
-		if w.writer.indexStart >= uint64(w.writer.writeOffset) {
-			w.writer.indexStart = 0
-		}
+		// The segment is sealed iff an index frame is covered by the commit we
+		// recovered to. Index frames after it were part of torn (uncommitted)
+		// writes or are stale bytes left behind by one; they must neither seal the
+		// segment nor make us forget an index frame that was committed.
+		w.writer.indexStart = ci.indexStart
 
 		// Since at least one commit was found, the header better be valid!
 		return validateFileHeader(*readInfo, w.info)
